@@ -267,11 +267,14 @@ func (c *factCtx) hdrFacts(h map[string][]string, key string) string {
 // left unset: 1 January of year 1) is outside UnixNano's range; it is before every date a certificate, document or CRL can
 // carry, which is all the comparisons made with it can see — the model gets the smallest representable instant.
 // (Only the two CRL instants may be left unset in generated time sets: x509 path validation reads a zero time as "now".)
-func instant(t time.Time) int64 {
+func instant(t time.Time) string {
 	if t.IsZero() {
-		return -1 << 62
+		return "-4611686018427387904"
 	}
-	return t.UnixNano()
+	// seconds and nanoseconds separately: UnixNano() is only defined for years 1678–2262, verification times and validity
+	// ends are not confined to them
+	n := new(big.Int).Mul(big.NewInt(t.Unix()), big.NewInt(1000000000))
+	return n.Add(n, big.NewInt(int64(t.Nanosecond()))).String()
 }
 
 func levelsFacts(ls []mLevel) string {
@@ -298,7 +301,7 @@ func levelsFacts(ls []mLevel) string {
 }
 
 func (c *factCtx) tcbDoc(p string, d *mTcbInfo) {
-	c.add("%sid=%s %sver=%d %snext=%d %sfmspc=%s %spceid=%s %smrs=%s %sattr=%s %smask=%s %snid=%d %slv=%s", p, hs(d.ID), p, d.Version, p, d.NextUpdate.UnixNano(),
+	c.add("%sid=%s %sver=%d %snext=%s %sfmspc=%s %spceid=%s %smrs=%s %sattr=%s %smask=%s %snid=%d %slv=%s", p, hs(d.ID), p, d.Version, p, instant(d.NextUpdate),
 		p, hs(d.Fmspc), p, hs(d.PceID), p, hx.Hex(d.TdxModule.Mrsigner.Bytes), p, hx.Hex(d.TdxModule.Attributes.Bytes), p, hx.Hex(d.TdxModule.AttributesMask.Bytes),
 		p, len(d.TdxModuleIdentities), p, levelsFacts(d.TcbLevels))
 	for i, m := range d.TdxModuleIdentities {
@@ -307,7 +310,7 @@ func (c *factCtx) tcbDoc(p string, d *mTcbInfo) {
 }
 
 func (c *factCtx) qeDoc(p string, d *mEnclaveIdentity) {
-	c.add("%sid=%s %sver=%d %snext=%d %smisc=%s %smiscm=%s %sattr=%s %sattrm=%s %smrs=%s %sprod=%d %slv=%s", p, hs(d.ID), p, d.Version, p, d.NextUpdate.UnixNano(),
+	c.add("%sid=%s %sver=%d %snext=%s %smisc=%s %smiscm=%s %sattr=%s %sattrm=%s %smrs=%s %sprod=%d %slv=%s", p, hs(d.ID), p, d.Version, p, instant(d.NextUpdate),
 		p, hx.Hex(d.Miscselect.Bytes), p, hx.Hex(d.MiscselectMask.Bytes), p, hx.Hex(d.Attributes.Bytes), p, hx.Hex(d.AttributesMask.Bytes),
 		p, hx.Hex(d.Mrsigner.Bytes), p, d.IsvProdID, p, levelsFacts(d.TcbLevels))
 }
@@ -351,7 +354,7 @@ func (c *factCtx) crlFacts(body []byte) string {
 	if len(rev) > 0 {
 		r = strings.Join(rev, "+")
 	}
-	return fmt.Sprintf("%d,%d,%s,%d", c.nameID(crl.Issuer.String()), c.signedBy(crl.RawTBSRevocationList, crl.Signature, crl.SignatureAlgorithm), r, crl.NextUpdate.UnixNano())
+	return fmt.Sprintf("%d,%d,%s,%s", c.nameID(crl.Issuer.String()), c.signedBy(crl.RawTBSRevocationList, crl.Signature, crl.SignatureAlgorithm), r, instant(crl.NextUpdate))
 }
 
 // StructOK: all sub-messages present and every checked field of its layout size (harness-side reading of CheckQuoteV4).
@@ -369,9 +372,9 @@ func (w *World) Facts(fx string, msgTokens string, clock time.Time) string {
 	if s.Now == nil {
 		c.add("now=nil")
 	} else {
-		c.add("now=%d,%d,%d,%d,%d", instant(s.Now[0]), instant(s.Now[1]), instant(s.Now[2]), instant(s.Now[3]), instant(s.Now[4]))
+		c.add("now=%s,%s,%s,%s,%s", instant(s.Now[0]), instant(s.Now[1]), instant(s.Now[2]), instant(s.Now[3]), instant(s.Now[4]))
 	}
-	c.add("clock=%d", clock.UnixNano())
+	c.add("clock=%s", instant(clock))
 	// chain
 	chainBytes := q.GetSignedData().GetCertificationData().GetQeReportCertificationData().GetPckCertificateChainData().GetPckCertChain()
 	leafIdx := -1
@@ -542,9 +545,9 @@ func (w *World) Facts(fx string, msgTokens string, clock time.Time) string {
 			}
 			dps = strings.Join(d, "+")
 		}
-		c.add("c%d=%d,%d,%d,%d,%s,%s,%d,%d,%s,%d,%d,%d,%d,%d,%d,%s", i, cert.Version, b01(cert.SignatureAlgorithm == x509.ECDSAWithSHA256), b01(cert.PublicKeyAlgorithm == x509.ECDSA), b01(curveOK),
+		c.add("c%d=%d,%d,%d,%d,%s,%s,%d,%d,%s,%s,%s,%d,%d,%d,%d,%s", i, cert.Version, b01(cert.SignatureAlgorithm == x509.ECDSAWithSHA256), b01(cert.PublicKeyAlgorithm == x509.ECDSA), b01(curveOK),
 			hs(cert.Subject.CommonName), hs(cert.Issuer.CommonName), c.nameID(cert.Subject.String()), c.nameID(cert.Issuer.String()), cert.SerialNumber.String(),
-			cert.NotBefore.UnixNano(), cert.NotAfter.UnixNano(), b01(canCert), b01(canCrl), c.keyID(cert.PublicKey), c.signedBy(cert.RawTBSCertificate, cert.Signature, cert.SignatureAlgorithm), dps)
+			instant(cert.NotBefore), instant(cert.NotAfter), b01(canCert), b01(canCrl), c.keyID(cert.PublicKey), c.signedBy(cert.RawTBSCertificate, cert.Signature, cert.SignatureAlgorithm), dps)
 		if i == leafIdx {
 			c.add("x%d=%s", i, PckFacts(cert))
 		}
